@@ -126,7 +126,7 @@ CLAIMED = {
    note="Trusted: TLC; stdlib json as independent parser; term projection. Ambiguous-union types are outside (C01 weak law)."),
  "C12": dict(
    engine="Caches",
-   technique="TLA+ spec Caches.tla (memo layers keyed by equality class vs observable detail, shared mutable results, clear) explored exhaustively by TLC; every abstract history instantiated in 34 families of colliding arguments, run warm in a fresh fork and compared call by call with the same call in a cold fork, validated by TLC trace spec Caches_Trace.tla",
+   technique="TLA+ spec Caches.tla (memo layers keyed by equality class vs observable detail, shared mutable results, clear) explored exhaustively by TLC; every abstract history instantiated in 35 families of colliding arguments, run warm in a fresh fork and compared call by call with the same call in a cold fork, validated by TLC trace spec Caches_Trace.tla",
    level="model_checking",
    text="TLC enumerates every operation history up to the bound over calls with arguments [equality class, detail], deep mutation of an earlier call's result and input, and cache clearing, and checks history-freedom of the reference memo (and that a detail-blind key or a shared result object violates it). Each emitted history is instantiated in 32 concrete families (union member orders at root and nested, equal instants with different offsets, text carriers, bare containers, 1/1.0/True, same-named classes, string references from two modules, recursive types, codec configurations, dateparse targets, routine kinds of one class in every build order, different inputs / value classes for one routine, private init fields, text decoding to nested containers, == durations of different classes, temporal -> text targets, == mapping keys, annotations of one runtime origin, the same input object again after a failed call, a class and its subclass in either order, an instance of the frozen target class passed again), executed in a fresh fork, and every call's outcome is compared by TLC with the outcome of the same call alone in another fresh fork of a zygote that never called the library; inputs must stay unmutated, earlier results unaffected (also by a mutation of the input that produced them), and results of different calls disjoint; every cold call is repeated in freshly started interpreters with other string-hash seeds and must give the same outcome.",
    ref="DESIGN.md section 4 C12",
